@@ -352,6 +352,13 @@ def as_str(x):
     return x
 
 
+def str_of_int(n):
+    """str(n) for an integer"""
+    if isinstance(n, int) and not isinstance(n, bool):
+        return str(n)
+    return mk(z3.If(n.t >= 0, z3.IntToStr(n.t), z3.Concat(z3.StringVal('-'), z3.IntToStr(-n.t))), 'str')
+
+
 def int_ok(s):
     """int(s) succeeds.  Symbolically this is the uninterpreted int_ok(s) of the int() model: the model ties it (and int_val)
     to str.to_int on the paths where the code really converts, so code and specification share the same atoms."""
